@@ -325,3 +325,35 @@ SPECS["C14"] = {
     "level_note": "trusts std::vector / memcpy / memset as reference; ASan for out-of-block accesses",
     "assumptions": ["String(len) is used as a buffer the caller fills (its content is unspecified until written)"],
 }
+
+
+# ---------------------------------------------------------------------------------------------- C12
+def plan_c12(tier, seed):
+    if tier == "quick":
+        return checks("main", 8, 5000)
+    return checks("main", 13, 80000) + checks("nohook_avx2", 3, 60000)
+
+
+SPECS["C12"] = {
+    "builds": {
+        "main": Build("main", "harness/c12_value.cpp"),
+        "nohook_avx2": Build("nohook_avx2", "harness/c12_value.cpp", hook=False, simd="avx2"),
+    },
+    "default_build": "main",
+    "plan": plan_c12,
+    "rule": ("case = entropy bytes -> program of 1-60 public Value operations over a pool of 3 values + 2 pointer targets, each applied to a node reached by a "
+             "generated path (root, then up to 3 child steps): every scalar/string/container assignment overload, += overloads (scalars, strings, Value copy/move, "
+             "ObjectT, ArrayT empty and non-empty), [] by C-string/String/StringView/index, Get, Insert, Merge copy/move, Remove (3 overloads), RemoveIndex, Reset, "
+             "Compress, copy/move construction and assignment between roots, SetPointerToValue/AddPointerToValue, direct construction followed by in-place "
+             "conversion (in a 0xBE-filled buffer); after every step all 5 roots are compared recursively with the document model through every reader "
+             "(kind predicates, Type, Size, GetValue by index/key, GetKey iteration, strings, GetNumberType, SetNumber/GetDouble/GetInt64/GetUInt64/SetBool "
+             "coercions) and Stringify(17) against the model's canonical text; non-trivial = a step changed the kind of a non-empty value, removed a member, "
+             "moved a root or created a pointer; distinct by entropy"),
+    "engine": "rapidcheck",
+    "technique": "model-based (stateful) property testing with rapidcheck: generated operation programs compared step by step with an abstract JSON document model",
+    "level_text": ("Generated histories of public Value operations are executed against the library and an in-harness document model (transition table in DESIGN.md "
+                   "Appendix A); every read is compared after every step, copies are checked for independence, the allocation ledger must be empty at the end. "
+                   "Positional access into objects is generated only while the object holds no removed entries, as the property states. Sampling over histories."),
+    "level_note": "the model encodes the documented transitions; operations whose result is undocumented (SetPointerToValue(nullptr), operator=(ValueType) on a live value, self-merge) are not generated",
+    "assumptions": ["pointer targets outlive the values pointing at them and never hold pointers themselves (no cycles)"],
+}
